@@ -366,8 +366,80 @@ class Tables:
             return self._st[key]
         f = self.static_fn()
         opn = self.op_names()
-        it = Interp(self.F, models=MODELS, max_depth=6, max_paths=512)
-        outs = it.run(f, [self.tl_value(lk, "l"), self.tl_value(rk, "r"), Variant(OP, opn.index(op), op, []), Opaque("flags")])
+        r = self._static_once(f, opn, op, lk, rk, Opaque("flags"))
+        if any(x[0] == "Undecided" for x in r):
+            # the flags decide a branch the evaluation cannot fold with an unknown value (eq_complex recursing through optionals): evaluate
+            # under every setting of the boolean flags instead (no executing class) and take the union
+            fl = self.F.adt("compiler::ast::r#type::TypecheckFlags")
+            if fl is not None:
+                import itertools
+                fields = fl["variants"][0]["fields"]
+                bools = [x["name"] for x in fields if x["ty"].strip() == "bool"]
+                dom = self._flag_domains(fields, bools)
+                u = set()
+                for combo in itertools.product(*[sorted(dom[b]) for b in bools]):
+                    vals = dict(zip(bools, (absint.TRUE if b else absint.FALSE for b in combo)))
+                    fv = Variant("compiler::ast::r#type::TypecheckFlags", 0, "TypecheckFlags", [vals.get(x["name"], absint.NONE) for x in fields])
+                    # with known flags the paths are few; the small helpers (disregard_distractors ..) are called many times along one path
+                    u |= self._static_once(f, opn, op, lk, rk, fv, loop_bound=24)
+                if not any(x[0] == "Undecided" for x in u):
+                    r = frozenset((tag, k, True) for (tag, k, dd) in u)
+        self._st[key] = r
+        return r
+
+    def _flag_domains(self, fields, bools):
+        """The values each boolean field of TypecheckFlags can have anywhere in the compiler: the constants its constructors write, plus both
+        values when the field's setter (a method of the same name) is called at all or a construction writes a non-constant."""
+        if getattr(self, "_fd", None) is not None:
+            return self._fd
+        idx = {x["name"]: i for i, x in enumerate(fields)}
+        dom = {b: set() for b in bools}
+        for g in self.F.crates["compiler"].fns:
+            for bi, si, dst, rv, st in g.assigns():
+                if "agg" in rv and str(rv["agg"].get("adt", "")).endswith("TypecheckFlags") and len(rv["ops"]) == len(fields):
+                    for b in bools:
+                        k = mir.op_const(rv["ops"][idx[b]])
+                        if k is not None and "int" in k:
+                            dom[b].add(k["int"] != "0")
+                        else:
+                            dom[b] |= {False, True}
+        # setters: methods of TypecheckFlags that write a parameter into a field of self
+        setters = {}
+        for g in self.F.crates["compiler"].fns:
+            if "TypecheckFlags" not in g.path or g.kind == "Closure":
+                continue
+            for bi, si, dst, rv, st in g.assigns():
+                pr = dst.get("p") or []
+                if dst["l"] == 1 and len(pr) == 1 and pr[0][0] == "field" and pr[0][2] in dom and "use" in rv:
+                    src = mir.op_local(rv["use"])
+                    for _ in range(4):      # `_3 = copy _2; self.field = move _3`
+                        if src is None or 1 <= src <= g.argc:
+                            break
+                        ds = [rv2 for b2, s2, d2, rv2, st2 in g.assigns() if d2["l"] == src and not d2.get("p")]
+                        src = mir.op_local(ds[0]["use"]) if len(ds) == 1 and "use" in ds[0] else None
+                    if src is not None and 2 <= src <= g.argc:
+                        setters[g.path] = (pr[0][2], src - 1)
+                    else:
+                        k = mir.op_const(rv["use"])
+                        dom[pr[0][2]] |= ({k["int"] != "0"} if (k is not None and "int" in k) else {False, True})
+        for g in self.F.crates["compiler"].fns:
+            for c in g.calls():
+                hit = setters.get(c.callee())
+                if hit is None:
+                    continue
+                b, ai = hit
+                k = mir.op_const(c.args[ai]) if len(c.args) > ai else None
+                dom[b] |= ({k["int"] != "0"} if (k is not None and "int" in k) else {False, True})
+        self.flag_setters = setters
+        for b in bools:
+            if not dom[b]:
+                dom[b] = {False, True}
+        self._fd = dom
+        return dom
+
+    def _static_once(self, f, opn, op, lk, rk, flags, loop_bound=3):
+        it = Interp(self.F, models=MODELS, max_depth=6, max_paths=512, loop_bound=loop_bound)
+        outs = it.run(f, [self.tl_value(lk, "l"), self.tl_value(rk, "r"), Variant(OP, opn.index(op), op, []), flags])
         self.evals += 1
         res = set()
         for o in outs:
@@ -390,9 +462,7 @@ class Tables:
                 res.add(("Undecided", "%s %r" % (o.kind, o.value), o.data_dep))
         if it.exhausted:
             res.add(("Undecided", "path bound", True))
-        r = frozenset(res)
-        self._st[key] = r
-        return r
+        return frozenset(res)
 
     # ---- constant folder --------------------------------------------------------------------
     def num_value(self, kind, tag, payload=None):
